@@ -454,7 +454,7 @@ bool Session::sequence_check(const unsigned seqnum, const Message *msg)
 				_resend_highest = seqnum;
 			return false;
 		}
-		if (_state == States::st_continuous)
+		if (_state == States::st_continuous || _state == States::st_test_request_sent) // the gap is also proof of life
 		{
 			send(generate_resend_request(_next_receive_seq));
 			_resend_highest = seqnum;
